@@ -527,6 +527,9 @@ def run(ctx, rep):
     # a faulty declaration between two comments must not be swallowed by the first comment
     from rules import c08_trivia
     c08_trivia.run_comment(ctx, rep, rid="R-C03-comment")
+    # a changed document is checked as changed: its cached parse cannot outlive its text
+    from rules.c11 import rule_cache
+    rule_cache(ctx, rep, rid="R-C03-cache")
     # a faulty file must not be replaced in the file table by a different file that merely compares equal
     from rules.c06 import rule_types
     rule_types(ctx, rep, rid="R-C03-fileid")
